@@ -647,7 +647,7 @@ theorem slicePeriodRows_spec (t : List Cell) : rowsSpec t (Triangle.slicePeriodR
   AccessorsExtL.rowsSpec_slicePeriodRows t
 
 /-- the keys of `slice_period_rows` are exactly the (metadata, period) pairs present in the cells -/
-theorem slicePeriodRows_keys (t : List Cell) (k : RowKey) :
+theorem slicePeriodRows_keys (t : List Cell) (k : SliceRowKey) :
     k ∈ (Triangle.slicePeriodRows t).map (·.1) ↔ ∃ c ∈ t, c.rowKey = k := by
   rw [AccessorsExtL.rows_keys, ((List.mergeSort_perm _ _).map _).mem_iff, JoinL.groupBy_keys,
     JoinL.mem_firstKeys]
